@@ -37,6 +37,7 @@ type certKit struct {
 	caFileMissing       string
 	ownCert, ownKey     string // the proxy's own certificate (valid chain, DNS proxy.test)
 	creds               map[string]*tls.Certificate
+	ca1DER, ca2DER      []byte
 }
 
 func pemWrite(t *testing.T, path, typ string, der []byte) {
@@ -77,7 +78,8 @@ func newCertKit(t *testing.T, dir string) *certKit {
 	}
 	both := []x509.ExtKeyUsage{x509.ExtKeyUsageClientAuth, x509.ExtKeyUsageServerAuth}
 	ca1, ca1Key, ca1DER := mkCA("configured-ca")
-	ca2, ca2Key, _ := mkCA("foreign-ca")
+	ca2, ca2Key, ca2DER := mkCA("foreign-ca")
+	k.ca1DER, k.ca2DER = ca1DER, ca2DER
 	future := time.Now().Add(12 * time.Hour)
 	k.caPool = x509.NewCertPool()
 	k.caPool.AddCert(ca1)
@@ -307,6 +309,72 @@ func TestC19(t *testing.T) {
 					viol(fmt.Sprintf("client with CA verification configured (%s) accepted a %s server", c.String(), cred), op)
 				}
 			}
+		}
+	}
+	// --- the CA file is replaced in place (rotation) with an older / equal / newer modification time: every endpoint built
+	// afterwards from the same configuration trusts exactly the CA the file holds NOW ("CA from file")
+	{
+		rot := filepath.Join(dir, "rotating-ca.pem")
+		pemWrite(t, rot, "CERTIFICATE", k.ca1DER)
+		base := time.Now().Add(-48 * time.Hour).Truncate(time.Second)
+		_ = os.Chtimes(rot, base, base)
+		rcase := tlsCase{true, true, "good", false}
+		rcfg := k.config(rcase)
+		rcfg.RemoteCAPath = rot
+		current := 1 // which CA the file holds
+		check := func(step string) {
+			sc, err1 := encryption.GetServerTLSConfig(rcfg, logger)
+			cc, err2 := encryption.GetClientTLSConfig(rcfg)
+			if err1 != nil || err2 != nil || sc == nil || cc == nil {
+				viol(fmt.Sprintf("CA rotation (%s): building the TLS configuration failed: %v %v", step, err1, err2))
+				return
+			}
+			// relative to the file's current content: the leaf issued by the current CA is the valid chain, the other one a foreign-CA peer
+			rel := map[string]string{"validChain": "validChain", "otherCA": "otherCA"}
+			if current == 2 {
+				rel = map[string]string{"validChain": "otherCA", "otherCA": "validChain"}
+			}
+			for _, cred := range []string{"validChain", "otherCA"} {
+				p1, p2 := tcpPair(t)
+				got := handshakeOutcome(p1, p2, sc, k.peerClientConfig(cred))
+				op := fmt.Sprintf("srvadmit %s %s", rcase.String(), rel[cred])
+				e.Emit(op, got)
+				e.Evals++
+				e.Count("rotation_server_" + rel[cred] + "_" + got)
+				if (rel[cred] == "validChain") != (got == "admit") {
+					viol(fmt.Sprintf("CA rotation (%s): the server built from the CA file, which now holds CA %d, answered %q to a client certified by %s", step, current,
+						got, map[bool]string{true: "that CA", false: "the CA the file held before"}[rel[cred] == "validChain"]), op)
+				}
+				srv := &tls.Config{MinVersion: tls.VersionTLS12, Certificates: []tls.Certificate{*k.peerCred(cred, "server")}}
+				p1, p2 = tcpPair(t)
+				got = handshakeOutcome(p1, p2, srv, cc)
+				op = fmt.Sprintf("cliadmit %s %s", rcase.String(), rel[cred])
+				e.Emit(op, got)
+				e.Evals++
+				e.Count("rotation_client_" + rel[cred] + "_" + got)
+				if (rel[cred] == "validChain") != (got == "admit") {
+					viol(fmt.Sprintf("CA rotation (%s): the client built from the CA file, which now holds CA %d, answered %q to a server certified by %s", step, current,
+						got, map[bool]string{true: "that CA", false: "the CA the file held before"}[rel[cred] == "validChain"]), op)
+				}
+			}
+		}
+		check("initial")
+		mt := base
+		for i, how := range []string{"older", "same", "newer", "same", "older"} {
+			current = 3 - current
+			tmp := rot + ".new"
+			pemWrite(t, tmp, "CERTIFICATE", map[int][]byte{1: k.ca1DER, 2: k.ca2DER}[current])
+			switch how {
+			case "older":
+				mt = mt.Add(-time.Hour)
+			case "newer":
+				mt = mt.Add(time.Hour)
+			}
+			_ = os.Chtimes(tmp, mt, mt)
+			if err := os.Rename(tmp, rot); err != nil {
+				t.Fatal(err)
+			}
+			check(fmt.Sprintf("replacement %d, modification time %s than before", i+1, how))
 		}
 	}
 	// --- real listeners: TCP (ClusterConnection inbound server) and mux receiver, verification on
